@@ -6,7 +6,7 @@
    correspondence oracle only; see DESIGN.md (C18, partial). *)
 From Coq Require Import QArith Qminmax Qreals List Reals.
 From Coquelicot Require Import Coquelicot.
-From V Require Import lib.Common lib.Sorting model.TableReader proof.C18.
+From V Require Import lib.Common lib.Sorting model.TableReader proof.C18 proof.C18Closed.
 Import ListNotations.
 
 (* --- the same data given as x / y lists or as xy pairs parse to the same (x, y), hence build the same function *)
@@ -39,10 +39,18 @@ Proof.
   destruct (line_convex lx ly hx hy x Hl Hh) as (E & H0 & H1). fold t in E, H0, H1.
   split; [exact E|]. rewrite E. apply convex_between; apply Qlt_le_weak; assumption.
 Qed.
+(* on the closed segment between two neighbouring rows -- the two rows included -- the value is the straight line:
+   the reader is the continuous piecewise-linear interpolant of the rows, nothing jumps at a data point *)
+Theorem c18_reader_segment_closed : forall l1 lx ly hx hy l2 x,
+  xsorted (l1 ++ (lx, ly) :: (hx, hy) :: l2) -> (lx <= x)%Q -> (x <= hx)%Q ->
+  let t := ((x - lx) / (hx - lx))%Q in
+  (get_value (l1 ++ (lx, ly) :: (hx, hy) :: l2) x == ly * (1 - t) + hy * t)%Q.
+Proof. exact get_value_segment_closed. Qed.
 Theorem c18_reader_outside : forall pts x, (x < first_x pts)%Q \/ (last_x pts < x)%Q -> get_value pts x = 0%Q.
 Proof. exact get_value_outside. Qed.
 Print Assumptions c18_reader_rows.
 Print Assumptions c18_reader_between.
+Print Assumptions c18_reader_segment_closed.
 
 (* --- table form: zero outside [xmin, xmax] (value and both derivatives); deriv and deriv2 are the true
        derivatives of the interpolant and of deriv, at every real x off the knots and the two ends *)
